@@ -2,8 +2,9 @@
 package c18
 
 import (
-	"os"
 	"fmt"
+	"os"
+	"runtime"
 	"runtime/debug"
 	"sort"
 	"strings"
@@ -912,7 +913,7 @@ func TestPropAdminHistory(t *testing.T) {
 		var hist []string
 		rejected, noop, delMid := false, false, false
 		seq := 0
-		t.Repeat(map[string]func(*rapid.T){
+		t.Repeat(watched(&hist, map[string]func(*rapid.T){
 			"addRoute": func(t *rapid.T) {
 				seq++
 				key := fmt.Sprintf("k%d", seq)
@@ -1143,7 +1144,7 @@ func TestPropAdminHistory(t *testing.T) {
 			"": func(t *rapid.T) {
 				checkSnapshot(t, tab, m, strings.Join(hist, "; "))
 			},
-		})
+		}))
 		for _, rt := range realRoutes {
 			rt.Shutdown()
 		}
@@ -1365,4 +1366,30 @@ func TestPropConcurrentChurn(t *testing.T) {
 		}
 		rec.Case(fmt.Sprintf("perm=%d disp=%d per=%d ops=%v", nperm, ndisp, per, ops), true, fmt.Sprintf("dispatchers=%d", ndisp))
 	})
+}
+
+// watched wraps the actions of a purely sequential admin history (no traffic, no I/O): an operation that has not
+// returned after 30 s never will (each takes microseconds).  The history cannot be continued then, so "the table view
+// reflects exactly the sequence of changes applied" fails for every later change; rapid cannot be told from another
+// goroutine, so the watchdog reports through the driver's marker and ends the process.
+func watched(hist *[]string, actions map[string]func(*rapid.T)) map[string]func(*rapid.T) {
+	out := map[string]func(*rapid.T){}
+	for name, f := range actions {
+		name, f := name, f
+		out[name] = func(t *rapid.T) {
+			done := make(chan struct{})
+			go func() {
+				select {
+				case <-done:
+				case <-time.After(30 * time.Second):
+					buf := make([]byte, 1<<16)
+					fmt.Fprintf(os.Stderr, "VERIF-VIOLATION: admin operation %q did not return within 30 s in a sequential history without traffic; operations completed before it: %q\n%s\n", name, *hist, buf[:runtime.Stack(buf, true)])
+					os.Exit(1)
+				}
+			}()
+			defer close(done)
+			f(t)
+		}
+	}
+	return out
 }
